@@ -1712,6 +1712,11 @@ where
             // CharacterEscape :: IdentityEscape :: [+UnicodeMode] /
             '^' | '$' | '\\' | '.' | '*' | '+' | '?' | '(' | ')' | '[' | ']' | '{' | '}' | '|'
             | '/' => Ok(c),
+            // CharacterEscape :: IdentityEscape :: SourceCharacterIdentityEscape[+NamedCaptureGroups]
+            // excludes k: with a named group in the pattern, \k can only start a named backreference.
+            'k' if !self.flags.unicode && !self.named_group_indices.is_empty() => {
+                error("Invalid character escape")
+            }
             // CharacterEscape :: IdentityEscape :: SourceCharacterIdentityEscape
             _ if !self.flags.unicode => Ok(c),
             _ => error("Invalid character escape"),
